@@ -10,6 +10,7 @@ CONSTANTS
   MaxHist = 5
   AsFound_VarListCached = TRUE
   AsFound_TraceBreaksFunctions = FALSE
+  Hyp_IdResetPerModel = FALSE
 INVARIANT TypeOK
 INVARIANT C17_HistoryIndependent
 INVARIANT C17_ReparseClean
